@@ -78,6 +78,203 @@ theorem hkeyElements_Split_full_eq_model (hE : EnvH o T env) (e : HkeyElems α) 
   simp only [u64s_take, u64s_drop]
   rw [u32_sub (by omega) (by omega), u32_add (by omega), u32_add (by omega)]
 
+/-- `hkeyElements.Merge` IN FULL: digests and elements appended, size added (the right prefix counted once); the
+    right group is only cleared (`deadAfterCall`).  Needs: the right size covers its prefix, the sum fits uint32. -/
+theorem hkeyElements_Merge_full_eq_model (l r : HkeyElems α) (hr8 : Gen.hkeyElementsPrefixSize ≤ r.size)
+    (hsz : l.size + r.size < 2^32) :
+    hkeyElements_Merge env (cH l) (.hkey (cH r)) = some (none, cH (HkeyElems.merge l r)) := by
+  simp only [Gen.hkeyElementsPrefixSize] at hr8
+  simp only [hkeyElements_Merge, hkeyElements_Size, HkeyElems.merge, cH, merge_eq, Bool.not_true, Bool.false_eq_true,
+    if_false, Gen.hkeyElementsPrefixSize, u64s_append]
+  have e8 : UInt32.ofNat 8 = u32 8 := rfl
+  rw [e8, u32_sub hr8 (by omega), u32_add (by omega)]
+
+/-- `hkeyElements.Merge` with anything but an `*hkeyElements`: SlabMergeError, the receiver untouched -/
+theorem hkeyElements_Merge_wrong_type (hE : EnvH o T env) (l : HkeyElems α) (x : elements (MElemF α) V)
+    (hx : ∀ h, x ≠ .hkey h) :
+    hkeyElements_Merge env (cH l) x = some (some .slabMerge, cH l) := by
+  cases x with
+  | hkey h => exact absurd rfl (hx h)
+  | nil => simp [hkeyElements_Merge, hE.eMerge]
+  | single s => simp [hkeyElements_Merge, hE.eMerge]
+
+theorem goIdx_ofNat {β : Type} (l : List β) (n : Nat) (h : n < l.length) : goIdx l (Int.ofNat n) = some l[n] := by
+  simp [goIdx, h]
+
+theorem hkeyLendFull_loop (hE : EnvH o T env) (minS size mid : Nat) (hm : minS < 2^32) (hsz : size < 2^32)
+    (hmid : mid < 2^32) (e : hkeyElements (MElemF α)) (n : Nat) (hn : n ≤ e.elems.length) (lc ls : Nat) (hlc : n ≤ lc)
+    (hls : ((dg (e.elems.map (fun el => el.size o))).take n).sum ≤ ls) (hls2 : ls ≤ size) :
+    hkeyElements_LendToRight.loop1 env e (u32 minS) (u32 size) (u32 mid) n (Int.ofNat lc) (u32 ls) =
+      .done (Int.ofNat (HkeyElems.lendLoop minS size mid ((dg (e.elems.map (fun el => el.size o))).take n).reverse lc ls).1,
+             u32 (HkeyElems.lendLoop minS size mid ((dg (e.elems.map (fun el => el.size o))).take n).reverse lc ls).2) := by
+  induction n generalizing lc ls with
+  | zero => simp [hkeyElements_LendToRight.loop1, HkeyElems.lendLoop]
+  | succ n ih =>
+    have hlt : n < (dg (e.elems.map (fun el => el.size o))).length := by rw [dg_length, List.length_map]; omega
+    have hlt' : n < e.elems.length := by omega
+    rw [sum_take_succ _ _ hlt] at hls
+    rw [take_succ_reverse _ _ hlt]
+    rw [dg_getD _ _ (by rw [List.length_map]; omega)] at hls ⊢
+    have hget : (e.elems.map (fun el => el.size o)).getD n 0 = (e.elems[n]).size o := by
+      simp [List.getD_eq_getElem?_getD, List.getElem?_map, List.getElem?_eq_getElem hlt']
+    rw [hget] at hls ⊢
+    simp only [hkeyElements_LendToRight.loop1, HkeyElems.lendLoop, goIdx_ofNat _ _ hlt', hE.size]
+    have ih' := fun lc ls h1 h3 h4 => ih (by omega) lc ls h1 h3 h4
+    generalize (e.elems[n]).size o = x at *
+    rw [u32_add (show x + Gen.digestSize < 2^32 by omega)]
+    generalize x + Gen.digestSize = y at *
+    rw [u32_sub (show y ≤ ls by omega) (by omega), u32_sub hls2 hsz,
+      u32_dlt (by omega) hmid, u32_dge (by omega) hm]
+    by_cases c : ls - y < mid ∧ size - ls ≥ minS
+    · have c' : (decide (ls - y < mid) && decide (size - ls ≥ minS)) = true := by simp [c]
+      simp [c']
+    · have c' : (decide (ls - y < mid) && decide (size - ls ≥ minS)) = false := by
+        simp only [Bool.and_eq_false_iff, decide_eq_false_iff_not]; omega
+      simp only [c', Bool.false_eq_true, if_false]
+      have := ih' (lc - 1) (ls - y) (by omega) (by omega) (by omega)
+      have e1 : (Int.ofNat lc - (1 : Int)) = Int.ofNat (lc - 1) := by simp only [Int.ofNat_eq_natCast]; omega
+      rw [e1]
+      simpa using this
+
+/-- `hkeyElements.LendToRight` IN FULL: the hash-level error in the same case (both groups untouched); otherwise
+    the last elements of the left group and THEIR digests move in front of the right group, both sizes updated.
+    Needs: the parallel slices have equal length (Go moves the last `moveCount` digests, the model the digests from
+    `leftCount` on), `mapDataSlabPrefixSize + hkeyElementsPrefixSize ≤ minThreshold`, both sizes ≥ the prefix, their
+    sum below 2^32, the left size covers its elements. -/
+theorem hkeyElements_LendToRight_full_eq_model (hE : EnvH o T env) (l r : HkeyElems α)
+    (hT : minThr T < 2^32) (hT2 : Gen.mapDataSlabPrefixSize + Gen.hkeyElementsPrefixSize ≤ minThr T)
+    (hlv : l.level < 2^64) (hrv : r.level < 2^64) (hsz : l.size + r.size < 2^32)
+    (hr8 : Gen.hkeyElementsPrefixSize ≤ r.size)
+    (hpre : Gen.hkeyElementsPrefixSize + (dg (rawSizes o l)).sum ≤ l.size)
+    (hlen : l.hkeys.length = l.elems.length) :
+    hkeyElements_LendToRight env (cH l) (.hkey (cH r)) =
+      match HkeyElems.lendToRight o T l r with
+      | .error _ => some (some .slabRebalance, cH l, .hkey (cH r))
+      | .ok (l', r') => some (none, cH l', .hkey (cH r')) := by
+  have hlen2 : (dg (rawSizes o l)).length = l.elems.length := by simp [dg, rawSizes]
+  simp only [HkeyElems.lendToRight, dg_rawSizes]
+  have hq : (u64 l.level = u64 r.level) = (l.level = r.level) := by
+    simp only [u64, ← UInt64.toNat_inj, UInt64.toNat_ofNat', eq_iff_iff]
+    constructor <;> intro h <;> omega
+  by_cases hlev : l.level = r.level
+  · simp only [hlev, ne_eq, not_true_eq_false, if_false]
+    simp only [hkeyElements_LendToRight, hkeyElements_Size, cH, hE.minThr, ne_eq, hq, hlev, not_true_eq_false,
+      decide_false, Bool.false_eq_true, if_false]
+    simp only [Gen.hkeyElementsPrefixSize, Gen.mapDataSlabPrefixSize] at hpre hT2 hr8 ⊢
+    have e8 : UInt32.ofNat 8 = u32 8 := rfl
+    have e18 : UInt32.ofNat 18 = u32 18 := rfl
+    have e16 : UInt32.ofNat (8 * 2) = u32 16 := rfl
+    have e1 : (1 : UInt32) = u32 1 := rfl
+    have efuel : (Int.ofNat l.elems.length - (1 : Int) + 1).toNat = l.elems.length := by
+      simp only [Int.ofNat_eq_natCast]; omega
+    rw [e8, e18, e16, e1, efuel, u32_sub (by omega) hT, u32_sub (by omega) (by omega), u32_add hsz,
+      u32_sub (by omega) (by omega), u32_sub (by omega) (by omega), u32_add (by omega), u32_half' (by omega)]
+    have hloop := hkeyLendFull_loop o T env hE (minThr T - 18 - 8) (l.size + r.size - 16) ((l.size + r.size - 16 + 1) / 2)
+      (by omega) (by omega) (by omega) (cH l) l.elems.length (by simp [cH]) l.elems.length (l.size - 8)
+      (by omega)
+      (by
+        have := sum_take_le (dg (rawSizes o l)) l.elems.length
+        show ((dg (rawSizes o l)).take l.elems.length).sum ≤ l.size - 8
+        omega) (by omega)
+    have hr : (cH l).elems.map (fun el => el.size o) = rawSizes o l := rfl
+    rw [hr, ← hlen2, List.take_length, hlen2] at hloop
+    have hce : (cH l) = { hkeys := u64s l.hkeys, elems := l.elems, size := u32 l.size, level := u64 r.level } := by
+      simp [cH, hlev]
+    rw [hce] at hloop
+    rw [hloop]
+    have hb := lendLoop_bounds (minThr T - 18 - 8) (l.size + r.size - 16) ((l.size + r.size - 16 + 1) / 2)
+      (dg (rawSizes o l)).reverse l.elems.length (l.size - 8)
+    have e82 : 8 * 2 = 16 := rfl
+    rw [e82]
+    generalize HkeyElems.lendLoop (minThr T - 18 - 8) (l.size + r.size - 16) ((l.size + r.size - 16 + 1) / 2)
+      (dg (rawSizes o l)).reverse l.elems.length (l.size - 8) = res at *
+    obtain ⟨lc, ls⟩ := res
+    simp only at hb ⊢
+    have emv : Int.ofNat l.elems.length - Int.ofNat lc = Int.ofNat (l.elems.length - lc) := by
+      simp only [Int.ofNat_eq_natCast]; omega
+    rw [emv, lendToRight_eq _ _ _ (by rw [u64s_length]; omega), lendToRight_eq _ _ _ (by omega)]
+    simp only [u64s_length, hlen, u64s_take, u64s_drop, u64s_append]
+    have hk : l.elems.length - (l.elems.length - lc) = lc := by omega
+    rw [hk, u32_sub (by omega) (by omega), u32_add (by omega), u32_add (by omega)]
+  · simp only [ne_eq, hlev, not_false_eq_true, if_true]
+    simp only [hkeyElements_LendToRight, cH, ne_eq, hq, hlev, not_false_eq_true, decide_true, if_true, hE.eRebalance]
+
+theorem hkeyBorrowFull_loop (hE : EnvH o T env) (minS size mid : Nat) (hm : minS < 2^32) (hsz : size < 2^32)
+    (hmid : mid < 2^32) (rest : List (MElemF α)) (i : Int) (lc ls : Nat)
+    (hls : ls + (dg (rest.map (fun el => el.size o))).sum ≤ size) :
+    hkeyElements_BorrowFromRight.loop1 env (u32 minS) (u32 size) (u32 mid) rest i (Int.ofNat lc) (u32 ls) =
+      .done (Int.ofNat (HkeyElems.borrowLoop minS size mid (dg (rest.map (fun el => el.size o))) lc ls).1,
+             u32 (HkeyElems.borrowLoop minS size mid (dg (rest.map (fun el => el.size o))) lc ls).2) := by
+  induction rest generalizing i lc ls with
+  | nil => simp [dg, hkeyElements_BorrowFromRight.loop1, HkeyElems.borrowLoop]
+  | cons x t ih =>
+    rw [List.map_cons, dg_cons] at hls ⊢
+    simp only [List.sum_cons] at hls
+    simp only [hkeyElements_BorrowFromRight.loop1, HkeyElems.borrowLoop, hE.size]
+    rw [u32_add (show x.size o + Gen.digestSize < 2^32 by omega)]
+    generalize x.size o + Gen.digestSize = y at *
+    rw [u32_add (show ls + y < 2^32 by omega),
+      u32_sub (show ls ≤ size by omega) hsz, u32_sub (show y ≤ size - ls by omega) (by omega),
+      u32_dgt (by omega) hmid, u32_dge (by omega) hm]
+    have e1 : (Int.ofNat lc + (1 : Int)) = Int.ofNat (lc + 1) := by simp only [Int.ofNat_eq_natCast]; omega
+    by_cases c1 : ls + y > mid
+    · by_cases c2 : size - ls - y ≥ minS
+      · simp [c1, c2]
+      · simp [c1, c2]
+    · simp only [c1, decide_false, if_false, Bool.false_eq_true, e1]
+      exact ih (i + 1) (lc + 1) (ls + y) (by omega)
+
+/-- `hkeyElements.BorrowFromRight` IN FULL, likewise (the RIGHT size must cover its elements, and every moved
+    element must have its digest). -/
+theorem hkeyElements_BorrowFromRight_full_eq_model (hE : EnvH o T env) (l r : HkeyElems α)
+    (hT : minThr T < 2^32) (hT2 : Gen.mapDataSlabPrefixSize + Gen.hkeyElementsPrefixSize ≤ minThr T)
+    (hlv : l.level < 2^64) (hrv : r.level < 2^64) (hsz : l.size + r.size < 2^32)
+    (hl8 : Gen.hkeyElementsPrefixSize ≤ l.size)
+    (hpre : Gen.hkeyElementsPrefixSize + (dg (rawSizes o r)).sum ≤ r.size)
+    (hlen : r.elems.length ≤ r.hkeys.length) :
+    hkeyElements_BorrowFromRight env (cH l) (.hkey (cH r)) =
+      match HkeyElems.borrowFromRight o T l r with
+      | .error _ => some (some .slabRebalance, cH l, .hkey (cH r))
+      | .ok (l', r') => some (none, cH l', .hkey (cH r')) := by
+  have hlen2 : (dg (rawSizes o r)).length = r.elems.length := by simp [dg, rawSizes]
+  simp only [HkeyElems.borrowFromRight, dg_rawSizes]
+  have hq : (u64 l.level = u64 r.level) = (l.level = r.level) := by
+    simp only [u64, ← UInt64.toNat_inj, UInt64.toNat_ofNat', eq_iff_iff]
+    constructor <;> intro h <;> omega
+  by_cases hlev : l.level = r.level
+  · simp only [hlev, ne_eq, not_true_eq_false, if_false]
+    simp only [hkeyElements_BorrowFromRight, hkeyElements_Size, cH, hE.minThr, ne_eq, hq, hlev, not_true_eq_false,
+      decide_false, Bool.false_eq_true, if_false]
+    simp only [Gen.hkeyElementsPrefixSize, Gen.mapDataSlabPrefixSize] at hpre hT2 hl8 ⊢
+    have e8 : UInt32.ofNat 8 = u32 8 := rfl
+    have e18 : UInt32.ofNat 18 = u32 18 := rfl
+    have e16 : UInt32.ofNat (8 * 2) = u32 16 := rfl
+    have e1 : (1 : UInt32) = u32 1 := rfl
+    rw [e8, e18, e16, e1, u32_sub (by omega) hT, u32_sub (by omega) (by omega), u32_add hsz,
+      u32_sub (by omega) (by omega), u32_sub (by omega) (by omega), u32_add (by omega), u32_half' (by omega)]
+    have hloop := hkeyBorrowFull_loop o T env hE (minThr T - 18 - 8) (l.size + r.size - 16) ((l.size + r.size - 16 + 1) / 2)
+      (by omega) (by omega) (by omega) r.elems 0 l.elems.length (l.size - 8)
+      (by show l.size - 8 + (dg (rawSizes o r)).sum ≤ l.size + r.size - 16; omega)
+    have hr : r.elems.map (fun el => el.size o) = rawSizes o r := rfl
+    rw [hr] at hloop
+    rw [hloop]
+    have hb := borrowLoop_bounds (minThr T - 18 - 8) (l.size + r.size - 16) ((l.size + r.size - 16 + 1) / 2)
+      (dg (rawSizes o r)) l.elems.length (l.size - 8)
+    rw [hlen2] at hb
+    have e82 : 8 * 2 = 16 := rfl
+    rw [e82]
+    generalize HkeyElems.borrowLoop (minThr T - 18 - 8) (l.size + r.size - 16) ((l.size + r.size - 16 + 1) / 2)
+      (dg (rawSizes o r)) l.elems.length (l.size - 8) = res at *
+    obtain ⟨lc, ls⟩ := res
+    simp only at hb ⊢
+    have emv : Int.ofNat lc - Int.ofNat l.elems.length = Int.ofNat (lc - l.elems.length) := by
+      simp only [Int.ofNat_eq_natCast]; omega
+    rw [emv, borrowFromRight_eq _ _ _ (by rw [u64s_length]; omega), borrowFromRight_eq _ _ _ (by omega)]
+    simp only [u64s_take, u64s_drop, u64s_append]
+    rw [u32_add (by omega), u32_sub (by omega) (by omega), u32_add (by omega)]
+  · simp only [ne_eq, hlev, not_false_eq_true, if_true]
+    simp only [hkeyElements_BorrowFromRight, cH, ne_eq, hq, hlev, not_false_eq_true, decide_true, if_true, hE.eRebalance]
+
 end hkey
 
 end Atree.TransEq
